@@ -211,13 +211,22 @@ class Run:
             r = random.Random(sseed)
             sel = sorted(r.sample(ids, r.randrange(0, len(ids) + 1)))
             job_ids = sel
+            ids_kind = ("list", "generator", "tuple", "iterator")[sseed % 4]
         else:
             sel = ids
             job_ids = None
+            ids_kind = "list"
+        def ids_arg():
+            """job_ids is documented as an iterable: a list, a tuple, or something that can be walked once"""
+            if job_ids is None:
+                return None
+            return {"list": lambda: list(job_ids), "tuple": lambda: tuple(job_ids),
+                    "generator": lambda: (x for x in job_ids), "iterator": lambda: iter(list(job_ids))}[ids_kind]()
+
         before = snapshot(prefix) if os.path.lexists(prefix) else None
         exc = None
         try:
-            self.proj.create_linked_view(prefix=prefix, job_ids=job_ids, path=path)
+            self.proj.create_linked_view(prefix=prefix, job_ids=ids_arg(), path=path)
         except Exception as e:  # noqa: BLE001
             exc = e
         # keys and formatted values become path components: a component holding the separator, or equal
@@ -259,7 +268,7 @@ class Run:
         self.scratch_n += 1
         sprefix = self.world.p(f"scratch{self.scratch_n}")
         try:
-            self.signac.Project(self.pp).create_linked_view(prefix=sprefix, job_ids=job_ids, path=path)
+            self.signac.Project(self.pp).create_linked_view(prefix=sprefix, job_ids=ids_arg(), path=path)
         except Exception as e:  # noqa: BLE001
             raise Mismatch(P, "C17:from-scratch-build-raised", f"the incremental build succeeded but the "
                            f"from-scratch build raised {type(e).__name__}: {e}")
@@ -275,7 +284,7 @@ class Run:
         snap1 = snapshot(prefix) if os.path.lexists(prefix) else None
         log0 = len(self.world.log)
         try:
-            self.proj.create_linked_view(prefix=prefix, job_ids=job_ids, path=path)
+            self.proj.create_linked_view(prefix=prefix, job_ids=ids_arg(), path=path)
         except Exception as e:  # noqa: BLE001
             raise Mismatch(P, "C17:second-call-raised", f"second create_linked_view raised {type(e).__name__}: {e}")
         snap2 = snapshot(prefix) if os.path.lexists(prefix) else None
